@@ -57,14 +57,15 @@ func (t *c07Typed) Quirks() c07Quirks {
 	return c07Quirks{
 		Name: "typed", ChecksDup: true,
 		TruncAboveLEOIsError: false, TrimNeedsAdopt: false, TruncBelowRetentionRejected: false,
-		TruncKeepsRetainedMax: true,
+		TruncKeepsRetainedMax: false,
 		HasBaseSeq:            true, HasTrusted: true, HasServerAlloc: true,
 		HasApply: true, HasApplyStrict: false, HasApplyCkpt: true, HasCkpt: true, HasTruncate: true,
 		HasListByNo: true, HasLookupPair: true, HasLastSender: true, HasGetByID: true,
 		HasHash: true, HasHitHash: true, HasCompatFields: false, ExactRetention: true,
-		// An empty payload through the typed API is covered by the dedicated
-		// probe family (see c07ProbeTypedEmptyPayload), not by the random body.
-		EmptyPayloadOK: false,
+		// Empty payloads and truncation below the persisted LEO floor were two
+		// typed-API defects (fixed in /repo since); both are part of the random
+		// body again and stay covered by the dedicated probe cases.
+		EmptyPayloadOK: true,
 		// StoreRetentionState is a raw setter: the workload only stores states a
 		// retention adopter would (boundary at or below the log end).
 		HasAdopt: true, AdoptAboveLEOOK: false, TrimAboveLEOOK: true, AppendDefaultsTS: true, ApplyDefaultsTS: true, HasChurn: true,
@@ -74,9 +75,7 @@ func (t *c07Typed) Quirks() c07Quirks {
 func (t *c07Typed) Project(ch *c07Chan, in c07Rec) c07Rec {
 	out := c07Rec{ID: in.ID, ChannelID: ch.ID, ChannelType: ch.Type, FromUID: in.FromUID, ClientMsgNo: in.ClientMsgNo,
 		Payload: in.Payload, TS: in.TS}
-	if len(in.Payload) > 0 {
-		out.PayloadHash = c07Hash(in.Payload)
-	}
+	out.PayloadHash = c07Hash(in.Payload)
 	return out
 }
 
